@@ -1,11 +1,25 @@
-"""Clients: Client (timeout + retry policies), ConnectionPool (connection latency > 0, 1–2 connections,
-short acquisition / idle timeouts), PooledClient and direct pool users, against a slow backend
-(a generator entity with variable latency, or the library Server with concurrency 1–2)."""
+"""Clients: Client (timeout + retry policies), ConnectionPool (connection latency >= 0, 1..many connections,
+acquisition / idle timeouts in every order relative to hold times, retry delays and service times, optional
+callbacks, warm-up, close_all), PooledClient and direct pool users, against a slow backend (a generator entity
+with variable latency, or the library Server with concurrency 1-2 and a bounded / unbounded queue).
+
+Coverage notes (widened):
+  * every retry policy with every constructor parameter (max_attempts 1.., delay 0.., multiplier 1.., max_delay
+    = / > initial delay, jitter 0 / > 0), optionally ALL policies side by side in one scenario ("bank");
+  * timeouts / delays / idle timeouts / hold times / connection latencies drawn with `dur_ms` (lossy values,
+    sub-ms decimals, values above 1 s) so that retry delay > idle timeout, timeout < / > service time,
+    connection timeout < hold time, idle timeout < inter-arrival gap all occur;
+  * `timeout=0.0` (legal: the time-out fires at the instant of the send), zero service time, zero connection
+    latency;
+  * sustained overload (arrival rate far above pool capacity / server capacity) and same-instant bursts;
+  * internal constant: ConnectionPool.acquire polls every min(0.1 s, connection_timeout / 10): connection
+    timeouts below, at and above 1 s are generated.
+"""
 from __future__ import annotations
 
 import random
 
-from hv.scenarios.base import T, seed_all, stats_of, sub_seed
+from hv.scenarios.base import T, dur_ms, seed_all, stats_of, sub_seed
 
 NAME = "client"
 MODEL = "C09"
@@ -14,39 +28,72 @@ COMPONENTS = ["Client", "ConnectionPool", "Connection", "PooledClient", "NoRetry
               "ExponentialLatency"]
 
 RETRIES = ["none", "fixed", "fixed0", "expo", "expo-jitter", "decor"]
+KINDS = ["plain", "pooled", "pooled", "direct"]
+
+
+def _client_cfg(rng, kind=None, retry=None, overload=False):
+    delay = dur_ms(rng, 0.5, rng.choice([60, 200, 1500]))
+    r = rng.random()
+    max_delay = delay if r < 0.25 else round(delay * rng.choice([1.5, 2, 4, 10]), 3)
+    return {
+        "kind": kind or rng.choice(KINDS),
+        "timeout_ms": 0 if rng.random() < 0.15 else dur_ms(rng, 1, rng.choice([40, 150, 1200])),  # 0 = no timeout
+        "timeout_zero": rng.random() < 0.05,                  # timeout=0.0 (legal), overrides timeout_ms
+        "retry": retry or rng.choice(RETRIES),
+        "attempts": rng.choice([1, 2, 2, 3, 3, 4, 6]),
+        "delay_ms": delay,
+        "max_delay_ms": max_delay,                            # ExponentialBackoff / DecorrelatedJitter cap
+        "mult_x100": rng.choice([100, 150, 200, 300]),        # ExponentialBackoff.multiplier
+        "jitter_ms": dur_ms(rng, 0.1, max(1, delay), zero=True),
+        "rate": rng.choice([150, 300, 500] if overload else [10, 20, 40, 60]),
+        "poisson": rng.random() < 0.5,
+        "own_pool": rng.random() < 0.3,
+        "hold_ms": dur_ms(rng, 1, rng.choice([40, 400])),     # direct pool users
+        "etype": rng.choice(["request", "request", "rpc.call"]),
+        "override_cb": rng.random() < 0.2,                    # per-request callbacks given to send_request
+        # same-instant bursts [at ms, how many]
+        "bursts": [[dur_ms(rng, 50, 2500), rng.choice([2, 5, 12, 30])] for _ in range(rng.choice([0, 0, 1, 2]))],
+    }
 
 
 def gen_cfg(rng):
+    long_run = rng.random() < 0.12
+    overload = (not long_run) and rng.random() < 0.25     # sustained overload of pool / server capacity
     clients = []
-    for _ in range(rng.randint(3, 5)):
-        clients.append({
-            "kind": rng.choice(["plain", "pooled", "pooled", "direct"]),
-            "timeout_ms": rng.choice([0, 15, 30, 60, 120]),      # 0 = no timeout
-            "retry": rng.choice(RETRIES),
-            "attempts": rng.randint(2, 4),
-            "delay_ms": rng.choice([5, 20, 100, 150]),
-            "rate": rng.choice([10, 20, 40, 60]),
-            "poisson": rng.random() < 0.5,
-            "own_pool": rng.random() < 0.3,
-            "hold_ms": rng.randint(5, 40),                        # direct pool users
-        })
+    if rng.random() < 0.5:
+        # bank: every retry policy once (fed in parallel), kinds mixed
+        for r in RETRIES:
+            clients.append(_client_cfg(rng, retry=r, overload=overload and rng.random() < 0.4))
+        if not any(c["kind"] == "direct" for c in clients):
+            clients.append(_client_cfg(rng, kind="direct"))
+    else:
+        for _ in range(rng.randint(3, 5)):
+            clients.append(_client_cfg(rng, overload=overload and rng.random() < 0.6))
+    pmax = rng.choice([1, 1, 2, 2, 3, 10])
+    svc_set = []
+    if rng.random() < 0.5:
+        svc_set = [dur_ms(rng, 0.5, rng.choice([20, 150, 600]), zero=True) for _ in range(rng.randint(1, 4))]
     return {
         "backend": rng.choice(["gen", "gen", "server"]),
         "svc_ms": [rng.randint(5, 30), rng.randint(30, 150)],
+        "svc_set_ms": svc_set,                                    # non-empty: service times drawn from this list
         "svc_exp": rng.random() < 0.3,
         "srv_conc": rng.randint(1, 2),
-        "srv_qcap": rng.choice([0, 2, 5]),                        # 0 = unbounded
+        "srv_qcap": rng.choice([0, 0, 1, 2, 5]),                  # 0 = unbounded
         "pool": {
-            "min": rng.randint(0, 1),
-            "max": rng.randint(1, 2),
-            "conn_lat_ms": rng.randint(1, 30),
+            "min": rng.choice([0, 0, 1, 1, 2, 3]),
+            "max": pmax,
+            "conn_lat_ms": dur_ms(rng, 0.5, rng.choice([30, 300]), zero=True),
             "conn_lat_exp": rng.random() < 0.3,
-            "conn_timeout_ms": rng.choice([40, 100, 250, 1000]),
-            "idle_timeout_ms": rng.choice([10, 50, 200, 2000]),
+            "conn_timeout_ms": dur_ms(rng, 5, rng.choice([100, 1000, 2500])),
+            "idle_timeout_ms": dur_ms(rng, 1, rng.choice([50, 500, 3000])),
             "warmup": rng.random() < 0.5,
+            "warmup_any": rng.random() < 0.2,                     # warm up also with min_connections == 0
+            "callbacks": rng.random() < 0.5,                      # on_acquire / on_release / on_timeout
+            "close_all_ms": 0 if rng.random() < 0.8 else dur_ms(rng, 300, 2500),
         },
         "clients": clients,
-        "end": rng.choice([2.0, 3.0, 4.0]),
+        "end": rng.choice([8.0, 10.0]) if long_run else rng.choice([2.0, 3.0, 4.0, 2.05, 3.003]),
     }
 
 
@@ -61,18 +108,25 @@ def _retry(c):
         return FixedRetry(max_attempts=c["attempts"], delay=d)
     if r == "fixed0":
         return FixedRetry(max_attempts=c["attempts"], delay=0.0)
+    old = "max_delay_ms" not in c                                  # corpus cfgs of the old shape
     if r == "expo":
-        return ExponentialBackoff(max_attempts=c["attempts"], initial_delay=d, max_delay=4 * d, multiplier=2.0)
+        md = 4 * d if old else max(d, c["max_delay_ms"] / 1000.0)
+        return ExponentialBackoff(max_attempts=c["attempts"], initial_delay=d, max_delay=md,
+                                  multiplier=c.get("mult_x100", 200) / 100.0)
     if r == "expo-jitter":
-        return ExponentialBackoff(max_attempts=c["attempts"], initial_delay=d, max_delay=4 * d, multiplier=1.5,
-                                  jitter=d)
-    return DecorrelatedJitter(max_attempts=c["attempts"], base_delay=d, max_delay=5 * d)
+        md = 4 * d if old else max(d, c["max_delay_ms"] / 1000.0)
+        j = d if old else c.get("jitter_ms", 0) / 1000.0
+        return ExponentialBackoff(max_attempts=c["attempts"], initial_delay=d, max_delay=md,
+                                  multiplier=c.get("mult_x100", 150) / 100.0, jitter=j)
+    md = 5 * d if old else max(d, c["max_delay_ms"] / 1000.0)
+    return DecorrelatedJitter(max_attempts=c["attempts"], base_delay=d, max_delay=md)
 
 
 def build(cfg, seed):
     from happysimulator.components.client import Client, ConnectionPool, PooledClient
     from happysimulator.components.server import Server
     from happysimulator.core.entity import Entity
+    from happysimulator.core.event import Event
     from happysimulator.core.simulation import Simulation
     from happysimulator.distributions import ConstantLatency, ExponentialLatency
     from happysimulator.load.event_provider import EventProvider
@@ -81,9 +135,10 @@ def build(cfg, seed):
     seed_all(seed)
     end = cfg["end"]
     stop = T(end - 0.7)
+    svc_set = cfg.get("svc_set_ms") or []
 
     class SlowBackend(Entity):
-        """every request is a process that sleeps a variable, non-zero time (unbounded concurrency)"""
+        """every request is a process that sleeps a variable time (unbounded concurrency)"""
 
         def __init__(self, name, lo, hi, rng):
             super().__init__(name)
@@ -98,7 +153,10 @@ def build(cfg, seed):
             cl = md.get("client")
             key = cl.name if cl is not None else "?"
             self.by_client[key] = self.by_client.get(key, 0) + 1
-            yield self.rng.randint(self.lo, self.hi) / 1000.0
+            if svc_set:
+                yield self.rng.choice(svc_set) / 1000.0
+            else:
+                yield self.rng.randint(self.lo, self.hi) / 1000.0
             self.completed += 1
 
         def stats(self):
@@ -132,25 +190,37 @@ def build(cfg, seed):
     class ClientRequests(EventProvider):
         """requests created through client.send_request (the way the library's tests drive a client)"""
 
-        def __init__(self, client, tag):
-            self.client, self.tag = client, tag
+        def __init__(self, client, tag, etype, override):
+            self.client, self.tag, self.etype, self.override = client, tag, etype, override
             self.generated = 0
+            self.over = {"ok": 0, "fail": 0}
+
+        def make(self, time):
+            self.generated += 1
+            kw = {}
+            if self.override and self.generated % 3 == 0:
+                def ok(req, resp, o=self.over):
+                    o["ok"] += 1
+
+                def fail(req, reason, o=self.over):
+                    o["fail"] += 1
+                kw = {"on_success": ok, "on_failure": fail}
+            req = self.client.send_request(payload=f"{self.tag}-req-{self.generated}", event_type=self.etype, **kw)
+            req.time = time
+            return req
 
         def get_events(self, time):
             if time > stop:
                 return []
-            self.generated += 1
-            req = self.client.send_request(payload=f"{self.tag}-req-{self.generated}")
-            req.time = time
-            return [req]
+            return [self.make(time)]
 
     lo, hi = cfg["svc_ms"]
     if cfg["backend"] == "gen":
         backend = SlowBackend("backend", lo, hi, random.Random(sub_seed(seed, "backend")))
         backend_obs = backend.stats
     else:
-        mean = (lo + hi) / 2000.0
-        dist = ExponentialLatency(mean) if cfg["svc_exp"] else ConstantLatency(mean)
+        mean = (svc_set[0] if svc_set else (lo + hi) / 2.0) / 1000.0
+        dist = ExponentialLatency(mean) if (cfg["svc_exp"] and mean > 0) else ConstantLatency(mean)
         backend = Server("backend", concurrency=cfg["srv_conc"], service_time=dist,
                          queue_capacity=cfg["srv_qcap"] or None)
         backend_obs = (lambda b=backend: {"stats": stats_of(b)(), "acc": b.stats_accepted, "drop": b.stats_dropped,
@@ -159,20 +229,40 @@ def build(cfg, seed):
     entities, sources, obs = [backend], [], {"backend": backend_obs}
     pre = []
     pc = cfg["pool"]
+    pools = []
 
     def make_pool(name):
         lat = pc["conn_lat_ms"] / 1000.0
+        cb = {"acq": 0, "rel": 0, "to": 0, "ids": []}
+        kw = {}
+        if pc.get("callbacks"):
+            def on_acq(conn, cb=cb):
+                cb["acq"] += 1
+                if len(cb["ids"]) < 12:
+                    cb["ids"].append(conn.id)
+
+            def on_rel(conn, cb=cb):
+                cb["rel"] += 1
+
+            def on_to(cb=cb):
+                cb["to"] += 1
+            kw = {"on_acquire": on_acq, "on_release": on_rel, "on_timeout": on_to}
         pool = ConnectionPool(
             name, target=backend, min_connections=min(pc["min"], pc["max"]), max_connections=pc["max"],
             connection_timeout=pc["conn_timeout_ms"] / 1000.0, idle_timeout=pc["idle_timeout_ms"] / 1000.0,
-            connection_latency=ExponentialLatency(lat) if pc["conn_lat_exp"] else ConstantLatency(lat))
+            connection_latency=ExponentialLatency(lat) if (pc["conn_lat_exp"] and lat > 0) else ConstantLatency(lat),
+            **kw)
         entities.append(pool)
+        pools.append(pool)
         obs[name] = stats_of(pool)
-        obs[name + ".state"] = (lambda p=pool: {"active": p.active_connections, "idle": p.idle_connections,
-                                                "total": p.total_connections, "pending": p.pending_requests,
-                                                "avg_wait": p.average_wait_time})
-        if pc["warmup"] and pc["min"] > 0:
+        obs[name + ".state"] = (lambda p=pool, cb=cb: {"active": p.active_connections, "idle": p.idle_connections,
+                                                       "total": p.total_connections, "pending": p.pending_requests,
+                                                       "avg_wait": p.average_wait_time, "cb": dict(cb)})
+        if (pc["warmup"] and pc["min"] > 0) or pc.get("warmup_any"):
             pre.append(pool.warmup())
+        if pc.get("close_all_ms"):
+            pre.append(Event.once(time=T(pc["close_all_ms"] / 1000.0), event_type=f"{name}.close_all",
+                                  fn=lambda e, p=pool: p.close_all()))
         return pool
 
     shared = None
@@ -189,6 +279,8 @@ def build(cfg, seed):
                 r["reasons"].append(reason)
 
         timeout = c["timeout_ms"] / 1000.0 if c["timeout_ms"] else None
+        if c.get("timeout_zero"):
+            timeout = 0.0
         if c["kind"] == "plain":
             cl = Client(nm, target=backend, timeout=timeout, retry_policy=_retry(c), on_success=on_ok,
                         on_failure=on_fail)
@@ -206,16 +298,25 @@ def build(cfg, seed):
                 cl = DirectUser(nm, pool, c["hold_ms"] / 1000.0)
         entities.append(cl)
         mk = Source.poisson if c["poisson"] else Source.constant
+        bursts = [(t_ms, n) for t_ms, n in c.get("bursts", []) if t_ms / 1000.0 < end - 0.7]
         if c["kind"] == "direct":
             obs[nm] = cl.stats
             sources.append(mk(rate=c["rate"], target=cl, event_type="Use", name=f"src{i}", stop_after=stop))
+            for t_ms, n in bursts:
+                for _j in range(n):
+                    pre.append(Event(time=T(t_ms / 1000.0), event_type="Use", target=cl))
         else:
+            prov = ClientRequests(cl, nm, c.get("etype", "request"), c.get("override_cb", False))
             obs[nm] = stats_of(cl)
-            obs[nm + ".more"] = (lambda cl=cl, r=results: {
+            obs[nm + ".more"] = (lambda cl=cl, r=results, p=prov: {
                 "in_flight": cl.in_flight_count, "avg_rt": cl.average_response_time,
-                "p50": cl.get_response_time_percentile(0.5), "p99": cl.get_response_time_percentile(0.99),
-                "cb": dict(r)})
-            sources.append(mk(rate=c["rate"], name=f"src{i}", event_provider=ClientRequests(cl, nm)))
+                "p0": cl.get_response_time_percentile(0.0), "p50": cl.get_response_time_percentile(0.5),
+                "p99": cl.get_response_time_percentile(0.99), "p100": cl.get_response_time_percentile(1.0),
+                "cb": dict(r), "over": dict(p.over), "generated": p.generated})
+            sources.append(mk(rate=c["rate"], name=f"src{i}", event_provider=prov))
+            for t_ms, n in bursts:
+                for _j in range(n):
+                    pre.append(prov.make(T(t_ms / 1000.0)))
 
     sim = Simulation(end_time=T(end), sources=sources, entities=entities)
     for e in pre:
